@@ -3,7 +3,10 @@ EXTENDS Vectorised
 Emit(S) == ndJsonSerialize(IOEnv.OUT_FILE, SetToSeq(S)) /\ (TRUE \/ phase = "")
 (* the non-default forms are exercised on the short arrangements only *)
 EmitAll == Emit({ [op |-> p, arr |-> a, form |-> "float"] : p \in TwinPairs, a \in Arrangements }
-                \cup { [op |-> p, arr |-> a, form |-> f] : p \in (MetricPairs \cup EstimatorPairs \cup ConversionPairs) \ AsGivenPairs, a \in { x \in Arrangements : Len(x) <= 2 }, f \in Forms \ {"float", "near-unit"} }
-                \cup { [op |-> p, arr |-> a, form |-> "near-unit"] : p \in AsGivenPairs, a \in { x \in Arrangements : Len(x) <= 2 } })
+                \cup { [op |-> p, arr |-> a, form |-> f] : p \in (MetricPairs \cup EstimatorPairs \cup ConversionPairs) \ AsGivenPairs, a \in { x \in Arrangements : Len(x) <= 2 }, f \in {"int-dtype", "scaled"} }
+                \cup { [op |-> p, arr |-> a, form |-> "near-unit"] : p \in AsGivenPairs, a \in { x \in Arrangements : Len(x) <= 2 } }
+                \cup { [op |-> p, arr |-> a, form |-> f] : p \in EstimatorPairs, a \in { x \in Arrangements : Len(x) = 2 \/ (Len(x) = 5 /\ x[1] = x[2]) },
+                                                            f \in {"held-first", "held-second"} }
+                \cup { [op |-> p, arr |-> a, form |-> "nan-entry"] : p \in NanPairs, a \in { x \in Arrangements : Len(x) <= 2 } })
 NsThorough == {1, 2, 5, 7}
 =============================================================================
